@@ -15,7 +15,7 @@ import time
 
 import common
 import pbatch
-from common import CICADA_BIN
+from common import CICADA_BIN, reset_signal_state
 from psim import WATCHDOG, HarnessError, Rng, Sim, Violation, proc_state
 from ptyrun import PtyShell
 
@@ -404,7 +404,8 @@ class C18Runner:
         env.update({"HISTORY_FILE": self.hfile, "HOME": self.root, "PATH": "/usr/bin:/bin", "HISTORY_DELETE_DUPS": "0"})
         env.pop("CICADA_VERIF_CTL", None)
         p = subprocess.run([CICADA_BIN, "-c", args_line], cwd=cwd or os.path.join(self.dirs, "plain"), env=env,
-                           stdin=subprocess.DEVNULL, stdout=subprocess.PIPE, stderr=subprocess.PIPE, timeout=WATCHDOG)
+                           stdin=subprocess.DEVNULL, stdout=subprocess.PIPE, stderr=subprocess.PIPE, timeout=WATCHDOG,
+                           preexec_fn=reset_signal_state)
         return p.returncode, p.stdout.decode(errors="replace"), p.stderr.decode(errors="replace")
 
     # ------------------------------------------------------------------ main
